@@ -16,7 +16,37 @@ PID = "C04"
 KINDS = ["emb", "cat_probs", "cat_logits", "cat_softmax", "cat_softmax0", "gau", "poly"]
 
 
+class _G:
+    pass
+
+
+def kron_pair(rng):
+    """two circuits over the same variables whose Kronecker product layers have DIFFERENT numbers of units (2 x 3, 3 x 2, ...):
+    the product needs the unit-permutation layer of multiply_kronecker_layers"""
+    from cirkit.symbolic import layers as L
+    from cirkit.symbolic import parameters as P
+    from cirkit.symbolic.circuit import Circuit
+    n = rng.choice([2, 2, 3])
+    vs = gen.VAR_SETS[rng.choice(["dense", "sparse"])](n)
+    N = 2
+    Ks = rng.choice([(2, 3), (3, 2), (2, 3), (1, 3), (2, 2)]) if n == 2 else rng.choice([(1, 2), (2, 1), (2, 2)])
+    out = []
+    for K in Ks:
+        g = _G()
+        g.doms = {v: ("disc", N) for v in vs}
+        ins = [L.EmbeddingLayer(Scope([v]), K, num_states=N, weight=P.Parameter.from_input(gen.tensor(gen.dy_array(rng, (K, N), 1, 8)))) for v in vs]
+        kl = L.KroneckerLayer(K, arity=n)
+        Ko = rng.choice([1, 2])
+        sl = L.SumLayer(K ** n, Ko, arity=1, weight=P.Parameter.from_input(gen.tensor(gen.dy_array(rng, (Ko, K ** n), 1, 8))))
+        g.desc = {"family": "kronecker-units", "K": K, "vars": list(vs), "kinds": ["emb"] * n, "sums": 1, "prods": 1, "arity": [1], "nout": 1}
+        g.o = None
+        out.append((Circuit(ins + [kl, sl], {kl: ins, sl: [kl]}, [sl]), g))
+    return out[0][0], out[1][0], out[0][1], out[1][1], True
+
+
 def build_pair(rng, mode):
+    if mode == "kron":
+        return kron_pair(rng)
     monotone = rng.random() < 0.5
     kinds = [rng.choice(KINDS)] if rng.random() < 0.5 else KINDS
     if rng.random() < 0.25:
@@ -39,7 +69,7 @@ def build_pair(rng, mode):
 
 def one_case(rep, cs, seed, i):
     rng = rng_for(seed, PID, i)
-    mode = rng.choice(["pair", "pair", "pair", "square", "evidence", "chain"])
+    mode = rng.choice(["pair", "pair", "pair", "square", "evidence", "chain", "kron"])
     sc1, sc2, g1, g2, monotone = build_pair(rng, mode)
     sem = pick_semiring(rng, monotone)
     fold, opt = rng.choice(evalc.FLAGS)
